@@ -204,11 +204,13 @@ def guardedStmt (k : Known) : UStmt → Option Known
   | .readBytes b f n => if covered k b n then some { (k.forget f) with sub := none } else none
   | .readRest b f => if k.le b then some { (k.forget f) with sub := none } else none
   | .readArr b f n => if covered k b (.lit n) then some { (k.forget f) with sub := none } else none
-  | .readSub b f _ win whole _ stores =>
+  | .readSub b f _ win whole checked stores =>
     if whole then some { (k.forget f) with sub := none } else
     match win with
-    | some n => if covered k b (.lit n) then some { (k.forget f) with sub := if stores then some b else none } else none
-    | none => if k.le b then some { (k.forget f) with sub := if stores then some b else none } else none
+    -- `bytesRead` is known to fit only when the call stored it AND its error was checked: an unchecked
+    -- failing call leaves `bytesRead` as it was (needed for `guarded_sound`, Props/C07.lean)
+    | some n => if covered k b (.lit n) then some { (k.forget f) with sub := if stores && checked then some b else none } else none
+    | none => if k.le b then some { (k.forget f) with sub := if stores && checked then some b else none } else none
   | .advance e => some { leP := covered k .P e, leD := covered k .D e }   -- moving by at most what a guard secured keeps `offset ≤ len`
   | .advanceRead =>
     match k.sub with
@@ -229,9 +231,10 @@ def guardedStmt (k : Known) : UStmt → Option Known
     if covered k b (.mul w (.fint g)) then some Known.none else none
   | .forRangeInt b w _ f => if covered k b (.mul w (.flen f)) then some Known.none else none
   | .forCountSub _ _ _ _ _ => some Known.none   -- carries its own guard inside the loop
-  | .whileFitsSub _ _ _ _ => some Known.none    -- the loop condition is the guard
+  -- the loop condition is the guard; a zero-size window could be decoded forever without advancing
+  | .whileFitsSub _ _ _ size => if 0 < size then some Known.none else none
   | .cstrUnicode _ => some { leD := true }      -- never indexes past the end; returns an offset ≤ len(D)
-  | .readArr3 b _ => if covered k b (.lit 12) then some { k with sub := none } else none
+  | .readArr3 b f => if covered k b (.lit 12) then some { (k.forget f) with sub := none } else none
 def guardedStmts (k : Known) : List UStmt → Option Known
   | [] => some k
   | s :: rest =>
